@@ -47,7 +47,7 @@ BOUND = {
                 "x position {last, first} x indent {default,None,0,1,4} x suffix {'', .gz} (205,400)",
 }
 TIME_CAP = {"quick": 240, "thorough": 3000}
-BOUND["quick"] += '; floats of particular value next to a missing one (-0.0, 1e300, -2**64); properties named like dict methods (values, items, keys, get)'
+BOUND["quick"] += '; floats of particular value next to a missing one (-0.0, 1e300, -2**64); properties named like dict methods (values, items, keys, get); a string property ending in U+0000 (collections of <= 2 features over absent / null / 'a' / 'ab\\x00' / '\\x00')'
 BOUND["thorough"] += "; plus the additions listed for the quick tier"
 
 POINT = {"type": "Point", "coordinates": [24.94, 60.17]}
@@ -85,6 +85,8 @@ ALPHA = {
     },
     # floats of particular value next to a missing one: a negative zero, whole numbers far beyond the int64 range
     "fx": {"f": [ABSENT, None, -0.0, 1e300, -18446744073709551616.0, 2.0]},
+    # a string ending in U+0000 (valid JSON: "ab\\u0000"): NumPy's fixed-width strings drop trailing NULs (seeded C18-r12-1)
+    "nul": {"q": [ABSENT, None, "a", "ab\x00", "\x00"]},
     # properties named like methods of dict (statistics / key-value exports are full of them)
     "dictnames": {"values": [ABSENT, None, 0], "items": [ABSENT, "", "a"], "keys": [ABSENT, None, False], "get": [ABSENT, None, 1.5]},
 }
@@ -173,6 +175,7 @@ def shards(tier):
         out += [feat(KEYS, "full", 2, j, 96) for j in range(96)]
     out += [feat([k], "full", 3) for k in KEYS]
     out.append(feat(["f"], "fx", 2 if tier == "quick" else 3))
+    out.append(feat(["q"], "nul", 2 if tier == "quick" else 3))
     out.append(feat(["values", "items", "keys", "get"], "dictnames", 1))
     out += [feat(["values", "items", "keys", "get"], "dictnames", 2, j, 9) for j in range(9)]
     out.append({"part": "kwargs", "tier": tier})
